@@ -72,7 +72,8 @@ def gen_case(r, k, nmol=None, nt=None, tensor=None):
             "rot": [r.randint(1, 10 ** 6), r.choice([1, -1])], "prequery": pre,
             # weak couplings split off into the Hamiltonian's remainder coupling: by the user (plain cases) or by the combined
             # Redfield-Foerster tensor whose effective Hamiltonian is supplied (tensor cases)
-            "remainder": (("cRF" if tensor else "removed") if (nmol >= 2 and k % 4 == 3) else None)}
+            "remainder": (("cRF" if tensor else "removed") if (nmol >= 2 and k % 4 == 3) else None),
+            "intpos": bool(geometry and k % 3 != 1)}
 
 
 def rotation(seed, det):
@@ -127,7 +128,8 @@ def build(c, dip_scale=1.0, rot=None, perm=None):
                 d = rot.dot(d)
                 pos = rot.dot(pos)
             m.set_dipole(0, 1, [float(x) for x in d])
-            m.position = [float(x) for x in pos]
+            # integer-typed coordinates as a user types them (the rotated comparison systems get floats)
+            m.position = [int(x) for x in pos] if (c.get("intpos") and rot is None) else [float(x) for x in pos]
             m.set_transition_environment((0, 1), cf)
             mols.append(m)
             cfs.append(cf.data.copy())
